@@ -109,6 +109,12 @@ pub fn db_text_variant(v: u32) -> String {
         }
         out.push_str(&l);
         out.push('\n');
+        // one TCP signature in five is listed a second time for segments that carry data (payload class '+'; the
+        // bundled file only knows class 0): a handshake segment with payload - TCP Fast Open - then has a match
+        if t.starts_with("sig") && section.starts_with("[tcp:") && l.trim_end().ends_with(":0") && r.chance(1, 2) {
+            let base = l.trim_end();
+            out.push_str(&format!("{}+\n", &base[..base.len() - 1]));
+        }
         if (section.starts_with("[tcp:") || section.starts_with("[http:")) && t.starts_with('[') && r.chance(1, 2) {
             out.push_str(if section.starts_with("[tcp:") { "label = g:unix:SimEmptyFirst:\n\n" } else { "label = s:!:SimEmptyFirst:\n\n" });
         }
